@@ -180,8 +180,30 @@ def run_case(data):
             break
         op = ch.weighted([(6, 'headers'), (5, 'data'), (2, 'end'), (2, 'push'), (2, 'prioritize'), (2, 'ping'),
                           (2, 'rst'), (2, 'wu'), (2, 'settings'), (2, 'altsvc'), (1, 'goaway'), (2, 'trailers'),
-                          (2, 'peer-mfs'), (2, 'answer-push')])
-        if op == 'peer-mfs':
+                          (2, 'peer-mfs'), (2, 'answer-push'), (1, 'read-part-then-clear')])
+        if op == 'read-part-then-clear':
+            # the application reads some of the queued frames (whole frames), drops the rest, and carries on:
+            # what it reads afterwards is still a sequence of whole frames
+            c = s.c
+            p1, p2 = ch.bytes(8), ch.bytes(8)
+            try:
+                c.ping(p1)
+                c.ping(p2)
+                first = c.data_to_send(17)          # exactly the first PING frame
+                c.clear_outbound_data_buffer()
+            except Exception as e:   # noqa: BLE001
+                r.violate('C02:valid-call-refused:%s' % type(e).__name__, 'ping / partial read / clear')
+                break
+            s.ep.sent += first
+            o = type('O', (), {})()
+            o.out, o.frames = first, []
+            s._parse(o)
+            r.step('two pings, read 17 bytes, clear_outbound_data_buffer', [(f.name, f.length) for f in o.frames])
+            if len(o.frames) != 1 or o.frames[0].type != wire.PING or o.frames[0].f.get('data') != p1:
+                r.violate('C02:partial-read-not-the-first-frame', repr(o.frames))
+                break
+            r.labels.add('partial-read-and-clear')
+        elif op == 'peer-mfs':
             # the peer announces a new MAX_FRAME_SIZE: every later frame on every stream, including
             # streams that exist already (open or reserved), must respect it
             new = ch.pick([16384, 16385, 32768, 40000, 2**24 - 1, 16384])
